@@ -308,6 +308,75 @@ def _run(ch, seq, offs, waiter, window, hdelay=0.0, start=0.0):
     return why, obs
 
 
+def _two_job(job):
+    """Two connections in one process (two clients of the spa, each with its own endpoint): a datagram received on one is
+    dispatched on that one only.  job = sequence of (target 0/1, alphabet index)."""
+    seq = job
+    lib.reset_library()
+    a = ARig()
+    # second client on the same loop/net
+    from geckolib import GeckoAsyncSpa, GeckoAsyncSpaDescriptor, AsyncTasks
+    cid_b = b"IOSgeckomc-0002"
+    ev_b = []
+
+    async def on_event_b(event, **kw):
+        ev_b.append(event)
+
+    with a.loop.running():
+        tasks_b = AsyncTasks()
+        spa_b = GeckoAsyncSpa(cid_b, GeckoAsyncSpaDescriptor(SPA_ID, "Spa", SPA_ADDR), tasks_b, on_event_b)
+        t = a.loop.create_task(spa_b.connect(), name="HARNESS:connect-b")
+    a.peer.set_block(a.block_at_connect)
+    a.loop.run_for(90.0, t.done)
+    if not t.done() or t.exception() or not spa_b.is_connected:
+        a.close()
+        return ("two-connect", f"a second client cannot connect while the first is connected: {t!r}"), "setup"
+    for task in list(a.tasks._tasks) + list(tasks_b._tasks):
+        if task.get_name() in ("SPA:Ping loop", "SPA:Refresh loop") and not task.done():
+            task.cancel()
+    a.loop.run_for(0.5)
+    spas = [(a.spa, CLIENT_ID), (spa_b, cid_b)]
+    blk = a.spa.struct.status_block
+    a.spa.struct.set_status_block(blk)
+    spa_b.struct.set_status_block(blk)
+    mark = len(a.net.sent)
+    ev0 = (len(a.events), len(ev_b))
+    n_statp = [0, 0]
+    n_rf = [0, 0]
+    for k, (tgt, idx) in enumerate(seq):
+        spa, cid = spas[tgt]
+        name, data, cls = ALPHABET[idx]
+        d = data.replace(CLIENT_ID, cid) if cls == "ok" else data
+        a.net.inject(spa._transport, d, SPA_ADDR, delay=0.03 * k)
+        if name == "statp":
+            n_statp[tgt] += 1
+        if name == "rferr":
+            n_rf[tgt] += 1
+    a.loop.run_for(4.0)
+    why = None
+    for i, (spa, cid) in enumerate(spas):
+        exp = blk if not n_statp[i] else blk[:P] + b"\xab\xcd" + blk[P + 2:]
+        if spa.struct.status_block != exp:
+            why = ("cross-talk", f"connection {'AB'[i]}: block {'not patched by its own STATP' if n_statp[i] else 'changed although nothing was addressed to it'} "
+                                 f"(arrivals {[('AB'[t], NAMES[x]) for t, x in seq]})")
+        if spa._protocol.queue.qsize() != 0:
+            why = why or ("stuck", f"connection {'AB'[i]}: {spa._protocol.queue.qsize()} datagram(s) still queued 4 s after the arrivals")
+        acks = sum(1 for (tm, src, dst, dd) in a.net.sent[mark:] if src == spa._transport.addr and b"STATQ" in dd)
+        if acks != n_statp[i]:
+            why = why or ("cross-talk", f"connection {'AB'[i]} sent {acks} STATQ for {n_statp[i]} STATP received on it")
+    evs = ([e.name for e in a.events[ev0[0]:]], [e.name for e in ev_b[ev0[1]:]])
+    for i in (0, 1):
+        if evs[i].count("ERROR_RF_ERROR") != n_rf[i]:
+            why = why or ("cross-talk", f"connection {'AB'[i]}: {evs[i].count('ERROR_RF_ERROR')} RF-error events for {n_rf[i]} RFERR received on it")
+    if why is None and (lib.LOG.records or a.loop.exceptions):
+        why = ("engine", f"errors: {lib.LOG.records[:2]} {a.loop.exceptions[:2]}")
+    with a.loop.running():
+        for x in tasks_b._tasks:
+            x.cancel()
+    a.close()
+    return why, core.digest([seq, why])
+
+
 def _job(job):
     prefix = job[1]
     seq, offs, waiter, window = job[0][:4]
@@ -331,6 +400,24 @@ def _job(job):
 
 def run(ctx):
     n = len(ALPHABET)
+    execs = 0
+    states = set()
+    # two connections in one process
+    sub2 = [i for i, al in enumerate(ALPHABET) if al[0] in ("statp", "rferr", "unknown-verb", "ping-reply", "bare-unknown")]
+    tjobs = [((t, i),) for t in (0, 1) for i in sub2] + [((t1, i), (t2, j)) for t1 in (0, 1) for t2 in (0, 1) for i in sub2 for j in sub2]
+    for (why, o), tj in zip(core.pmap(ctx, _two_job, tjobs, chunksize=4), tjobs):
+        execs += 1
+        states.add(o)
+        if why:
+            ctx.violation(f"C07|two-connections|{why[0]}", why[1], {"two": [list(x) for x in tj]})
+    ctx.set("two_connection_runs", len(tjobs))
+    if ctx.violations:
+        # connections are not independent: everything below drives one connection after the other in long-lived workers
+        ctx.set("states", len(states))
+        ctx.set("transitions", execs)
+        ctx.set("traces_validated_against_impl", execs)
+        ctx.cap("stopped after the two-connection scenarios: connections interfere with each other")
+        return
     plans = []
     for w in WAITERS:
         for a in range(n):
@@ -369,8 +456,6 @@ def run(ctx):
             plans.append(((a,), (), "ping-retry", 0.0, 0.0, g))
         for a, b in ((1, 4), (4, 1), (0, 1), (2, 1)):
             plans.append(((a, b), (0.05,), "ping-retry", 0.0, 0.0, g))
-    execs = 0
-    states = set()
     jobs = [(p, ()) for p in plans]
     cs = max(1, len(jobs) // (ctx.workers * 16))
     for res in core.pimap(ctx, _job, jobs, chunksize=cs):
@@ -413,6 +498,14 @@ def run(ctx):
 
 
 def replay(ctx, data):
+    if "two" in data:
+        why, _ = _two_job(tuple(tuple(x) for x in data["two"]))
+        if why:
+            ctx.violation(f"C07|two-connections|{why[0]}", why[1], data)
+        ctx.set("states", 1)
+        ctx.set("transitions", 1)
+        ctx.set("traces_validated_against_impl", 1)
+        return
     res = _job(((tuple(data["seq"]), tuple(data["offs"]), data["waiter"], data["window"], data.get("hdelay", 0.0),
                  data.get("start", 0.0)),
                 [tuple(p) for p in data["prefix"]]))
